@@ -14,6 +14,22 @@ pub fn shadow_subst(a: &[u64], g: usize, t: u64) -> Vec<u64> {
     out
 }
 
+
+fn ct_same(a: &Ciphertext, b: &Ciphertext) -> bool {
+    a.data() == b.data() && a.parms_id() == b.parms_id() && a.size() == b.size() && a.is_ntt_form() == b.is_ntt_form()
+        && a.scale().to_bits() == b.scale().to_bits() && a.correction_factor() == b.correction_factor()
+}
+/// the destination form of an operation, into a fresh destination and into a used one (another level, another correction factor / scale),
+/// must give exactly the object the value-returning form gives (data and every metadata field)
+fn dest_forms(out: &mut Out, what: &str, cls: &str, want: &Ciphertext, dirty: &Ciphertext, f: &dyn Fn(&mut Ciphertext)) {
+    for (dn, d0) in [("fresh", Ciphertext::new()), ("used", dirty.clone())] {
+        let mut d = d0;
+        let ok = std::panic::catch_unwind(std::panic::AssertUnwindSafe(|| { f(&mut d); })).is_ok();
+        if ok && ct_same(&d, want) { out.raw(&format!("!OK dest_form {} {} # dest-{}", what, dn, cls)); }
+        else { out.raw(&format!("!FAIL dest_form {} {} :: the destination form {} (correction factor {} vs {}, level/representation/scale compared too) # dest-{}", what, dn, if ok { "differs from the value-returning form" } else { "was refused" }, d.correction_factor(), want.correction_factor(), cls)); }
+    }
+}
+
 pub fn run(out: &mut Out, thorough: bool, seed: u64, _extra: &[String]) {
     let mut r = Rng::new(seed);
     // ---- unit level: GaloisTool on polynomials
@@ -80,6 +96,9 @@ pub fn run(out: &mut Out, thorough: bool, seed: u64, _extra: &[String]) {
             }
             if n <= 16 { let g = 2 * n - 1; out.case(&format!("ks_op galois {} {} | {} | {} | {}", g, fl(&key_qs(&s)), s.ct_case(&ct), kskey_str(&s, all_keys.key(g)), s.ct_case(&s.evaluator.apply_galois_new(&ct, g, &all_keys))), "ks-ckks-conj", || "ok".to_string());
                 let g3 = 3; out.case(&format!("ks_op galois {} {} | {} | {} | {}", g3, fl(&key_qs(&s)), s.ct_case(&ct), kskey_str(&s, all_keys.key(g3)), s.ct_case(&s.evaluator.apply_galois_new(&ct, g3, &all_keys))), "ks-ckks-rot1", || "ok".to_string()); }
+            { let ev = &s.evaluator; let dirty = s.encryptor.encrypt_new(&enc.encode_c64_array_new(&vals, None, 2f64.powi(20))); let lc = format!("ckks-l{}", clevel);
+              dest_forms(out, "rotate_vector", &lc, &ev.rotate_vector_new(&ct, 1, &all_keys), &dirty, &|d| ev.rotate_vector(&ct, 1, &all_keys, d));
+              dest_forms(out, "complex_conjugate", &lc, &ev.complex_conjugate_new(&ct, &all_keys), &dirty, &|d| ev.complex_conjugate(&ct, &all_keys, d)); }
             let res = s.evaluator.complex_conjugate_new(&ct, &all_keys);
             out.case(&format!("galois_ckks {} {} {} | {}", 2 * n - 1, p_special, s.ct_case(&ct), s.ct_case(&res)), &format!("ckks-conj-n{}-l{}", n, clevel), || "ok".to_string());
             let dec = enc.decode_new(&s.decryptor.decrypt_new(&res));
@@ -121,6 +140,13 @@ pub fn run(out: &mut Out, thorough: bool, seed: u64, _extra: &[String]) {
                     else { out.raw(&format!("!FAIL rotate_rows_slots {} n={} step={} {} :: decoded matrix is not rotated left by step # rows-slots", scheme_name(scheme), n, st, nm)); }
                 }
             }
+            // destination forms at this level (fresh destination and a used top-level one)
+            { let ev = &s.evaluator; let dirty = s.encryptor.encrypt_new(&plain); let lc = format!("{}-l{}", scheme_name(scheme), level);
+              let g3 = 3usize; let own3 = s.keygen.create_galois_keys_from_elts(&[g3], false);
+              dest_forms(out, "rotate_rows", &lc, &ev.rotate_rows_new(&ct, 1, &all_keys), &dirty, &|d| ev.rotate_rows(&ct, 1, &all_keys, d));
+              dest_forms(out, "rotate_columns", &lc, &ev.rotate_columns_new(&ct, &all_keys), &dirty, &|d| ev.rotate_columns(&ct, &all_keys, d));
+              dest_forms(out, "apply_galois", &lc, &ev.apply_galois_new(&ct, g3, &own3), &dirty, &|d| ev.apply_galois(&ct, g3, &own3, d));
+            }
             let res = s.evaluator.rotate_columns_new(&ct, &all_keys);
             out.case(&format!("prog {} {} {}", s.ct_case(&res), pred0, fl(&trim(&shadow_subst(&msg, 2 * n - 1, t)))), &format!("{}-cols-l{}", scheme_name(scheme), level), || s.dec_str(&res));
             if benc.decode_new(&s.decryptor.decrypt_new(&res)) == swap_rows(&slots) { out.raw(&format!("!OK rotate_columns_slots n={} # cols-slots", n)); } else { out.raw(&format!("!FAIL rotate_columns_slots n={} :: rows not swapped # cols-slots", n)); }
@@ -132,6 +158,7 @@ pub fn run(out: &mut Out, thorough: bool, seed: u64, _extra: &[String]) {
             let mut ct2 = Ciphertext::new(); enc2.encrypt_symmetric(&plain, &mut ct2);
             for _ in 0..level { ct2 = s.evaluator.mod_switch_to_next_new(&ct2); }
             let res = s.evaluator.apply_keyswitching_new(&ct2, &ksk);
+            { let dirty = s.encryptor.encrypt_new(&plain); dest_forms(out, "apply_keyswitching", &format!("{}-l{}", scheme_name(scheme), level), &res, &dirty, &|d| s.evaluator.apply_keyswitching(&ct2, &ksk, d)); }
             out.case(&format!("prog {} {} {}", s.ct_case(&res), pred0, fl(&trim(&msg))), &format!("{}-keyswitch-l{}", scheme_name(scheme), level), || s.dec_str(&res));
         }
         let _ = (plain_of(&[1]), rand_msg(&mut r, 2, 3));
